@@ -16,7 +16,7 @@ import (
 // map object. The model is a sequential register file evaluated row by row, item by item.
 
 type C20Item struct {
-	Kind  string `json:"kind"` // set | get | col
+	Kind  string `json:"kind"` // set | get | col | getsub (GETVAR inside a scalar subquery over dual)
 	Key   string `json:"key,omitempty"`
 	Val   *sq.E  `json:"val,omitempty"`   // set: value expression (may contain GETVAR calls); col: column reference
 	Alias string `json:"alias,omitempty"` // get / col
@@ -26,6 +26,9 @@ type C20Query struct {
 	Rows  []any     `json:"rows"`
 	Where *sq.E     `json:"where,omitempty"`
 	Items []C20Item `json:"items"`
+	// Form: "" flat select; "derived": SELECT * FROM (<select>) x; "cte": WITH c AS (<select>) SELECT * FROM c.
+	// Variables are read and written inside the nested query.
+	Form string `json:"form,omitempty"`
 }
 
 type C20Case struct {
@@ -104,10 +107,18 @@ func genC20(t *rapid.T) any {
 				k := rapid.SampledFrom([]string{"k1", "k2", "k3"}).Draw(t, il+".key")
 				q.Items = append(q.Items, C20Item{Kind: "set", Key: k, Val: genC20Value(t, k, il+".val")})
 			case 3, 4, 5:
-				q.Items = append(q.Items, C20Item{Kind: "get", Key: rapid.SampledFrom(c20AllKeys).Draw(t, il+".key"), Alias: fmt.Sprintf("g%d", i)})
+				kind := "get"
+				if rapid.IntRange(0, 4).Draw(t, il+".insub") == 0 {
+					kind = "getsub"
+				}
+				q.Items = append(q.Items, C20Item{Kind: kind, Key: rapid.SampledFrom(c20AllKeys).Draw(t, il+".key"), Alias: fmt.Sprintf("g%d", i)})
 			default:
 				q.Items = append(q.Items, C20Item{Kind: "col", Val: sq.Col(rapid.SampledFrom([]string{"a", "s"}).Draw(t, il+".col")), Alias: fmt.Sprintf("c%d", i)})
 			}
+		}
+		if rapid.IntRange(0, 3).Draw(t, ql+".nested") == 0 {
+			q.Form = rapid.SampledFrom([]string{"derived", "cte"}).Draw(t, ql+".form")
+			q.Items = append(q.Items, C20Item{Kind: "col", Val: sq.Col("a"), Alias: "ca"})
 		}
 		c.Queries = append(c.Queries, q)
 	}
@@ -122,6 +133,8 @@ func (q *C20Query) sql() string {
 			parts = append(parts, "SETVAR("+sq.StrLit(it.Key)+", "+sq.Render(it.Val, nil)+")")
 		case "get":
 			parts = append(parts, "GETVAR("+sq.StrLit(it.Key)+") AS "+it.Alias)
+		case "getsub":
+			parts = append(parts, "(SELECT GETVAR("+sq.StrLit(it.Key)+") AS g FROM dual) AS "+it.Alias)
 		default:
 			parts = append(parts, sq.Render(it.Val, nil)+" AS "+it.Alias)
 		}
@@ -129,6 +142,12 @@ func (q *C20Query) sql() string {
 	s := "SELECT " + strings.Join(parts, ", ") + " FROM t"
 	if q.Where != nil {
 		s += " WHERE " + sq.Render(q.Where, nil)
+	}
+	switch q.Form {
+	case "derived":
+		s = "SELECT * FROM (" + s + ") x"
+	case "cte":
+		s = "WITH c AS (" + s + ") SELECT * FROM c"
 	}
 	return s
 }
@@ -205,15 +224,21 @@ func checkC20(c *C20Case) Result {
 					}
 					model[it.Key] = v
 					writer[it.Key] = stamp{qi, ri}
-				case "get":
+				case "get", "getsub":
 					if w, ok := writer[it.Key]; ok && (w.q != qi || w.r != ri) {
 						crossRead = true
 					}
 					out[it.Alias] = model[it.Key]
+					if it.Kind == "getsub" {
+						out[it.Alias] = map[string]any{"g": model[it.Key]}
+					}
 				default:
 					v, _ := sq.Eval(it.Val, row, env)
 					out[it.Alias] = v
 				}
+			}
+			if q.Form == "derived" {
+				out = map[string]any{"x": out}
 			}
 			want = append(want, out)
 		}
@@ -242,7 +267,7 @@ func checkC20(c *C20Case) Result {
 			switch it.Kind {
 			case "set":
 				sets++
-			case "get":
+			case "get", "getsub":
 				gets++
 			}
 		}
@@ -271,7 +296,7 @@ func init() {
 		Title: "SETVAR/GETVAR behave as per-key registers in evaluation order",
 		Rule: "rapid draws a history: an initial variable map (possibly preset) and 1-5 queries sharing that one map; each query has a table (0-5 rows), " +
 			"an optional WHERE on plain columns and 1-6 select items out of SETVAR(k, const | column | column+const | GETVAR(k') | GETVAR(k') op const | " +
-			"GETVAR(k')+column | NULL | CONCAT(GETVAR(k), column)), GETVAR(k) AS alias (incl. a key that is never set) and plain columns, over keys k1..k3. " +
+			"GETVAR(k')+column | NULL | CONCAT(GETVAR(k), column)), GETVAR(k) AS alias (incl. a key that is never set; a fifth of them inside a scalar subquery over dual) and plain columns; a quarter of the queries are wrapped in a derived table or a CTE (variables read and written inside the nested query), over keys k1..k3. " +
 			"Oracle: a sequential register model evaluated row by row on the rows passing WHERE, item by item: every GETVAR column equals the model's " +
 			"value at that point (NULL if unset), SETVAR adds no column, after each Exec the caller's map deep-equals the model, the next query " +
 			"starts from that state. Non-trivial: >=2 queries, >=1 SETVAR and GETVAR, and a GETVAR that reads a value written by an earlier row or query.",
